@@ -1,7 +1,7 @@
-(* C02 — write-through persistence: the byte image always reopens to the same state.  Statements are printed by Check below and compared with C02.expected.  PARTIAL: proved are the write-through of the FAT (every cached cell equals the cell on disk after every table mutation, for reuse and growth paths), that the on-disk FAT read back as open does has the cache as a prefix, the entry / header codec round trips in both modes, and that strict acceptance gives the same state as permissive.  The composition persist (open (image s) = s up to free-list order, for every reachable s) is NOT proved; it is checked at every operation boundary of generated histories: the implementation's bytes, taken without flush, are reopened in both modes by the crate and by the model and all dumps compared. *)
+(* C02 — write-through persistence: the byte image always reopens to the same state.  Statements are printed by Check below and compared with C02.expected.  PARTIAL: proved are the write-through of the FAT, of the directory (insert / remove / metadata updates / new directory sectors) and of the MiniFAT cells (every cached cell or entry equals its bytes on disk after every mutation), that the on-disk FAT and directory read back as open does return the cache (the directory followed by the blank slots of its last sector), the entry / header codec round trips in both modes, and that strict acceptance gives the same state as permissive.  The composition persist (open (image s) = s up to free-list order, for every reachable s) is NOT proved; it is checked at every operation boundary of generated histories: the implementation's bytes, taken without flush, are reopened in both modes by the crate and by the model and all dumps compared. *)
 From Cfb.model Require Import Base Names DirEnt State Alloc Dir Mini Store Handle Open Cfb.
 From Cfb.gen Require Import Consts.
-From Cfb.proofs Require Import CoherenceProofs CodecProofs StrictProofs.
+From Cfb.proofs Require Import CoherenceProofs CodecProofs StrictProofs DirCoherence.
 Set Printing Width 110.
 
 (* every FAT cell update is on disk when the call returns *)
@@ -33,6 +33,36 @@ Theorem C02_data_writes_do_not_touch_the_fat : ltac:(let t := type of sector_wri
 Proof. exact sector_write_keeps_fat. Qed.
 Check C02_data_writes_do_not_touch_the_fat.
 Print Assumptions C02_data_writes_do_not_touch_the_fat.
+
+(* metadata / length updates of an entry are on disk when the call returns *)
+Theorem C02_dir_entry_rewrites_write_through : ltac:(let t := type of with_dir_entry_mut_coherent in exact t).
+Proof. exact with_dir_entry_mut_coherent. Qed.
+Check C02_dir_entry_rewrites_write_through.
+Print Assumptions C02_dir_entry_rewrites_write_through.
+
+(* after insert_dir_entry (slot reuse, append within a sector, or a new directory sector) every cached entry equals its 128 bytes on disk and the rest of the chain is blank *)
+Theorem C02_insertion_writes_through : ltac:(let t := type of insert_dir_entry_coherent_fatinv in exact t).
+Proof. exact insert_dir_entry_coherent_fatinv. Qed.
+Check C02_insertion_writes_through.
+Print Assumptions C02_insertion_writes_through.
+
+(* same after remove_dir_entry *)
+Theorem C02_removal_writes_through : ltac:(let t := type of remove_dir_entry_coherent in exact t).
+Proof. exact remove_dir_entry_coherent. Qed.
+Check C02_removal_writes_through.
+Print Assumptions C02_removal_writes_through.
+
+(* open's directory loop on the image returns the cached table followed by blank slots *)
+Theorem C02_directory_on_disk_reads_back : ltac:(let t := type of dir_loop_reads_back in exact t).
+Proof. exact dir_loop_reads_back. Qed.
+Check C02_directory_on_disk_reads_back.
+Print Assumptions C02_directory_on_disk_reads_back.
+
+(* every MiniFAT cell update is on disk when the call returns *)
+Theorem C02_minifat_writes_through : ltac:(let t := type of set_minifat_coherent in exact t).
+Proof. exact set_minifat_coherent. Qed.
+Check C02_minifat_writes_through.
+Print Assumptions C02_minifat_writes_through.
 
 (* every valid directory entry decodes to itself in both modes *)
 Theorem C02_dirent_roundtrip : ltac:(let t := type of dirent_roundtrip in exact t).
